@@ -163,6 +163,17 @@ CLAIMS["C19"] = dict(
     technique="static analysis: CFG guard dominance, check-before-update reachability, regex AST, idiom tables",
     design="DESIGN.md section 5, C19")
 
+CLAIMS["C15"] = dict(
+    text="Code-shape conditions of 'tracked wiring = explicit wiring': every override in hugr.build uses each parameter the "
+         "implementation it overrides uses (so metadata given to a tracked add reaches add_op, with the same keywords as Dfg.add); "
+         "the node is built by add_op(com.op, *wires) with ints replaced by the currently tracked wires, in order, before the node "
+         "exists (normal-form comparison); rebinding happens after creation, exactly for int arguments, to the new node's output at "
+         "the argument's position; `tracked` is append-only (who-may-write table: append / None / store), bad indices raise "
+         "IndexError, outputs filter None in index order.",
+    note="Not decided: node-for-node equality of the built graphs for every script (needs execution).",
+    technique="static analysis: override/parameter-use rule, normal-form comparison, CFG guard on the rebinding store, writer table",
+    design="DESIGN.md section 5, C15")
+
 NOT_APPLICABLE_REASON: dict[str, str] = {}
 
 
